@@ -11,9 +11,20 @@ for w in ft:
         first[s] = 'caught'
     for s, o in ft[w]['missed'].items():
         first[s] = 'missed' + (' (%s)' % o if o else '')
+import io, sys
+out = io.StringIO()
+_print = print
+
+
+def print(*a):
+    _print(*a, file=out)
+
+
 for wave in (3, 4, 5, 6):
     rows = []
     for d in sorted(glob.glob('/verif/seeded/C*-*')):
+        if not os.path.exists(os.path.join(d, 'meta.json')):
+            continue
         m = json.load(open(os.path.join(d, 'meta.json')))
         if m.get('wave') != wave:
             continue
@@ -24,3 +35,15 @@ for wave in (3, 4, 5, 6):
         print('| seed | what it needs to manifest | own quick check at first contact | caught now by |')
         print('|---|---|---|---|')
         print('\n'.join(rows))
+
+text = out.getvalue()
+if '--write' in sys.argv:
+    import re
+    p = '/verif/DESIGN.md'
+    d = open(p).read()
+    d = re.sub(r'<!-- SEEDTABLE:BEGIN -->.*<!-- SEEDTABLE:END -->',
+               lambda m: '<!-- SEEDTABLE:BEGIN -->\n' + text + '\n<!-- SEEDTABLE:END -->', d, flags=re.S)
+    open(p, 'w').write(d)
+    _print('DESIGN.md updated')
+else:
+    _print(text)
